@@ -129,9 +129,20 @@ def features(prog):
                 feats.add("array-with-pending-operands")
             if cond:
                 feats.add("array-in-conditional")
+    def strays(c, path):
+        # a loop body (own scope) holding both a Closure and a statement that leaves a value on the stack
+        if c["k"] in ("Repeat", "ForEach"):
+            body = c["c"][1]
+            stmts = body["c"] if body["k"] == "CompositeCard" else [body]
+            has_clo = []
+            walk(body, lambda x, p: has_clo.append(1) if x["k"] == "Closure" else None)
+            stray = any(st["k"] in ("Call", "DynamicCall", "CallNative", "PopTable", "ReadVar", "ScalarInt", "Add") for st in stmts)
+            if has_clo and stray:
+                feats.add("captured-scope-with-stray-value")
     for f in prog["fns"]:
         for c in f["body"]:
             walk(c, visit)
+            walk(c, strays)
         # a local whose first assignment is inside a While body (no scope of its own)
         seen = set(f["params"])
 
